@@ -18,7 +18,11 @@ META = {
                   'Pointer comparison/aliasing of C objects is modelled by distinct ids; the comparator is a pure function of the two nodes.',
     'design_ref': '§6 C09',
 }
-REQUIRED = []   # filled below once the theorems exist
+REQUIRED = ['Librfn.C09.' + t for t in (
+    'list_history_refines', 'list_history_refines_init', 'step_refines', 'rel_init', 'rel_observations', 'isList_frame',
+    'insert_refines', 'push_refines', 'extract_refines', 'peek_refines', 'empty_refines', 'iterate_refines', 'iteratorNext_refines',
+    'iteratorInsert_refines', 'iteratorRemove_refines', 'iteratorRemove_at_end', 'contains_refines', 'remove_refines',
+    'insertSorted_refines', 'insert_sorted_stable', 'traverse_refines', 'keyCmp_totalPreorder')]
 
 NN, NL, NK = 8, 3, 4
 HEAD = 'H'
